@@ -3,7 +3,9 @@
      oauth2.ResponseMessage, oauth2.AuthorizationResponse, oidc.AuthorizationResponse,
      oidc.RegistrationRequest, oidc.RegistrationResponse, oidc.ProviderConfigurationResponse,
      oidc.OpenIDSchema (incl. the birthdate formats), oidc.IdToken, oidc.JsonWebToken (AuthnToken),
-     session.LogoutToken, session.EndSessionRequest.
+     session.LogoutToken, session.EndSessionRequest, backchannel_authentication.AuthenticationRequest (CIBA),
+     oauth2.OauthClientMetadata / OauthClientInformationResponse, device_authorization.AccessTokenRequest;
+     the rules over a SET of parameters (at most one / at least one / all or none of) as predicates on the presence list.
    Shape of every rule set: a typed guard (outside it the model answers Unmodelled), then the ordered
    list of (condition that must hold, exception raised otherwise) the code checks.  Embedded signed
    objects (id_token_hint, logout_token, request; forged or unsigned ID Tokens) need the key jar: Unmodelled
@@ -424,6 +426,100 @@ Definition oidc_tokenresp_verify_idt lh issuers (c ic : mclass) (now : Z) (kw : 
   else o <- verify_id_token lh issuers ic now false kw t m1 ;;
        Ok (true, aset verified_id_token (VObj o) m1).
 
+(* ================= rules over a SET of parameters =================
+   "at most one of / at least one of / all or none of / all of / none of" a set of parameters: every such rule is a
+   predicate on the PRESENCE LIST of the set's members (in the order the rule names them).  The helper
+   Message.has_none_or_one_of(claims) is transcribed as the loop it is (a flag that latches once a member has been
+   seen); Proofs/MsgRules_proofs.v proves each predicate equivalent to a statement about the NUMBER of present members,
+   for every list length and every presence pattern, and invariant under reordering of the set. *)
+Definition presence (ks : list pystr) (m : msg) : list bool := List.map (fun k => has_key k m) ks.
+Definition count_true (l : list bool) : nat := List.length (List.filter (fun b : bool => b) l).
+(* Message.has_none_or_one_of: for c in claims: if c in self: (if found_one: return False else found_one = True) *)
+Fixpoint none_or_one_go (found : bool) (l : list bool) : bool :=
+  match l with
+  | [] => true
+  | true :: r => if found then false else none_or_one_go true r
+  | false :: r => none_or_one_go found r
+  end.
+Definition has_none_or_one_of (l : list bool) : bool := none_or_one_go false l.
+Definition has_at_least_one_of (l : list bool) : bool := existsb (fun b : bool => b) l.
+Definition has_all_of (l : list bool) : bool := forallb (fun b : bool => b) l.
+Definition has_none_of (l : list bool) : bool := negb (existsb (fun b : bool => b) l).
+Definition has_all_or_none_of (l : list bool) : bool := has_all_of l || has_none_of l.
+Definition has_exactly_one_of (l : list bool) : bool := has_at_least_one_of l && has_none_or_one_of l.
+(* the helper as a method of a message *)
+Definition msg_has_none_or_one_of (claims : list pystr) (m : msg) : bool := has_none_or_one_of (presence claims m).
+
+(* ================= oidc.backchannel_authentication.AuthenticationRequest (CIBA) =================
+   kwargs: mode (and the key jar, symbolic).  `rt` = the request object, `ht` = the id_token_hint, both symbolically
+   (Model/Msg.v token); rjc = AuthenticationRequestJWT, ic = IdToken: Message.from_jwt builds an instance of the
+   class from the content and does NOT run that class's verify().  Order of the code: generic check; with `request`:
+   nothing but the client-authentication parameters outside the object, unpack, copy the object's non-JWT claims into
+   the message, store the verified object; AT MOST ONE of the three hints (has_none_or_one_of); an id_token_hint that
+   is text is unpacked and stored under its marker; ping / push mode needs client_notification_token. *)
+Definition ciba_hints : list pystr := [PS "id_token_hint"; PS "login_hint"; PS "login_hint_token"].
+Definition ciba_outside_ok : list pystr := [PS "client_id"; PS "client_assertion_type"; PS "client_assertion"; PS "request"].
+Definition ciba_jwt_args : list pystr := [PS "iss"; PS "aud"; PS "iat"; PS "nbf"; PS "jti"; PS "exp"].
+Definition ciba_inside_only (c : mclass) : list pystr :=
+  List.filter (fun k => negb (str_in k ciba_outside_ok)) (List.map p_name (c_params c)).
+Definition verified_id_token_hint : pystr := PS "__verified_id_token_hint".
+Definition ciba_unpack (c rjc : mclass) (rt : token) (m : msg) : res msg :=
+  if has "request" m then
+    let m0 := adel verified_request m in
+    if negb (has_none_of (presence (ciba_inside_only c) m0)) then Err EParameter
+    else match get "request" m0 with
+         | Some (VStr _) =>
+             hp <- open_token rt ;;
+             ro <- construct rjc (snd hp) ;;
+             Ok (aset verified_request (VObj ro)
+                   (msg_update (List.filter (fun kv => negb (str_in (fst kv) ciba_jwt_args)) ro) m0))
+         | _ => Unmodelled
+         end
+  else Ok m.
+Definition ciba_hint (ic : mclass) (ht : token) (m : msg) : res msg :=
+  match get "id_token_hint" m with
+  | Some (VStr _) =>
+      hp <- open_token ht ;; o <- construct ic (snd hp) ;; Ok (aset verified_id_token_hint (VObj o) m)
+  | _ => Ok m
+  end.
+Definition ciba_mode_needs_token (kw : msg) : bool :=
+  match get "mode" kw with
+  | Some v => py_eq v (VStr (PS "ping")) || py_eq v (VStr (PS "push"))
+  | None => false
+  end.
+Definition ciba_hint_checks (m : msg) : list (bool * exc) := [(has_none_or_one_of (presence ciba_hints m), ValueError)].
+Definition ciba_mode_checks (kw m : msg) : list (bool * exc) :=
+  [(implb (ciba_mode_needs_token kw) (has "client_notification_token" m), EMissingRequired)].
+Definition ciba_authn_verify (c rjc ic : mclass) (kw : msg) (rt ht : token) (m : msg) : res msg :=
+  _ <- generic_verify c m ;;
+  m1 <- ciba_unpack c rjc rt m ;;
+  _ <- run_checks (ciba_hint_checks m1) ;;
+  m2 <- ciba_hint ic ht m1 ;;
+  _ <- run_checks (ciba_mode_checks kw m2) ;;
+  Ok m2.
+
+(* ================= oauth2.OauthClientMetadata / OauthClientInformationResponse ================= *)
+(* the rule reads the extra `grant_types` (the schema declares `grant_type`) *)
+Definition clientmeta_typed (m : msg) : bool := is_list_of_str (get "grant_types" m).
+Definition clientmeta_checks (m : msg) : list (bool * exc) :=
+  [(implb (existsb (fun g => str_in g [PS "authorization_code"; PS "implicit"]) (strs (list_of (get "grant_types" m))))
+          (has_all_of (presence [PS "redirect_uris"] m)), ValueError)].
+Definition clientmeta_verify (c : mclass) (m : msg) : res unit :=
+  _ <- generic_verify c m ;;
+  if negb (clientmeta_typed m) then Unmodelled else run_checks (clientmeta_checks m).
+(* client_secret comes with client_secret_expires_at *)
+Definition clientinfo_checks (m : msg) : list (bool * exc) :=
+  [(implb (has "client_secret" m) (has_all_of (presence [PS "client_secret_expires_at"] m)), EMissingRequired)].
+Definition clientinfo_verify (c : mclass) (m : msg) : res unit :=
+  _ <- clientmeta_verify c m ;; run_checks (clientinfo_checks m).
+
+(* ================= oauth2.device_authorization.AccessTokenRequest ================= *)
+(* device_code comes with BOTH grant_type and client_id *)
+Definition device_checks (m : msg) : list (bool * exc) :=
+  [(implb (has "device_code" m) (has_all_of (presence [PS "grant_type"; PS "client_id"] m)), EMissingRequired)].
+Definition device_verify (c : mclass) (m : msg) : res unit :=
+  _ <- generic_verify c m ;; run_checks (device_checks m).
+
 (* ================= dispatcher used by the correspondence cases =================
    result: what verify() returns (truthiness) and the message afterwards *)
 Definition kw_flag (k : string) (kw : msg) : bool := has k kw.
@@ -440,4 +536,7 @@ Definition class_rules (rule : pystr) (c : mclass) (now : Z) (kw m : msg) : res 
   else if str_eqb rule (PS "jwt") then unit_true m (jwt_verify c now kw m)
   else if str_eqb rule (PS "logout") then unit_true m (logout_verify c now kw m)
   else if str_eqb rule (PS "endsession") then b <- endsession_verify c m ;; Ok (b, m)
+  else if str_eqb rule (PS "clientmeta") then unit_true m (clientmeta_verify c m)
+  else if str_eqb rule (PS "clientinfo") then unit_true m (clientinfo_verify c m)
+  else if str_eqb rule (PS "device") then unit_true m (device_verify c m)
   else Unmodelled.
